@@ -16,7 +16,7 @@ LEVEL_TEXT = ('Bounded symbolic verification, decode-only: messages are produced
               'type outside 1..4, wrong length of a fixed-length attribute) an error must be reported instead of a value. Also through '
               'BGP._update_received (update_received vs on_update_error).')
 LEVEL_NOTE = 'No text parsing on this path, so all numeric fields of an obligation are symbolic at once; shapes (which attributes, list sizes, prefix lengths) enumerated.'
-LEVEL_ADDED = "Also: the C07 families (IPv6 unicast, labeled IPv4, VPNv4; 0, 1 or 2 routes; both directions; extended-length flag) and zero-route MP_REACH / MP_UNREACH of VPNv6, EVPN, flowspec through the reference encoder. Quick tier: AS4_PATH before AS_PATH / AGGREGATOR. Add-path identifiers in IPv6 MP_REACH / MP_UNREACH; the empty UPDATE; AGGREGATOR of the other mode's length as a length error."
+LEVEL_ADDED = "Also: the C07 families (IPv6 unicast, labeled IPv4, VPNv4; 0, 1 or 2 routes; both directions; extended-length flag) and zero-route MP_REACH / MP_UNREACH of VPNv6, EVPN, flowspec through the reference encoder. Quick tier: AS4_PATH before AS_PATH / AGGREGATOR. Add-path identifiers in IPv6 MP_REACH / MP_UNREACH; the empty UPDATE; AGGREGATOR of the other mode's length as a length error. Withdrawn routes, attributes and NLRI in one UPDATE."
 TECHNIQUE = 'symbolic execution of Update.parse on the output of an independent RFC encoder with symbolic fields (CrossHair+z3), differential oracle'
 EXPLANATION = 'C09: independent encoder -> real decoder, legal variants and checked malformations.'
 BOUNDS = 'prefix lengths 0..32; <= 3 prefixes; <= 4 attributes per message, all orders; AS_PATH <= 3 segments of <= 3 AS; communities <= 2 entries'
